@@ -10,3 +10,21 @@ def reg(pid, bin, level, technique, text, note, design_ref, watchdog=None):
 # Reasons for properties not (yet) claimed. Every property id that is not in CHECKS must be here.
 UNCLAIMED_DEFAULT = "monitor for this property is designed (DESIGN.md section 4) but not yet built and validated; not claimed rather than claimed with a different technique"
 UNCLAIMED = {}
+
+_PURE_NOTE = "Trusted: num-bigint arithmetic, the oracle code in /verif/harness, the byte representation of values. Decides only the executions produced (seeded generators); other inputs are not covered."
+
+reg("C24", "rv-math", "exploration", "differential monitoring against exact BigInt oracle",
+    "Every generated (type, op, operands) instance of checked add/sub/mul/div/neg/abs and every conversion is executed on the real code and compared with the exact rational result truncated toward zero computed in num-bigint; tens of millions of instances per quick run with operands aimed at range limits and truncation boundaries, panics caught. Held = no disagreement on the instances observed.",
+    _PURE_NOTE, "DESIGN.md §4 C24")
+reg("C25", "rv-math", "exploration", "differential monitoring against exact BigInt oracle",
+    "checked_round (all 7 modes, every decimal-place count), floor/ceiling, PreciseDecimal→Decimal truncation, for_withdrawal and divisibility checks are executed on generated values concentrated on exact ties, tie±1 subunit, already-rounded values and values within one step of the range limits and compared with a floor-division oracle.",
+    _PURE_NOTE, "DESIGN.md §4 C25")
+reg("C26", "rv-math", "exploration", "differential monitoring against exact BigInt oracle",
+    "sqrt/cbrt/nth_root results are checked by the defining inequality r^n <= x*S^(n-1) < (r+1)^n in BigInt; checked_powi against the exact rational power for |exp| <= 256 (exact when representable, never larger in magnitude, None only on overflow) and for extreme exponents for absence of panics.",
+    _PURE_NOTE + " Root degrees above 512 are not executed (cost of the real code grows with the degree).", "DESIGN.md §4 C26")
+reg("C27", "rv-math", "exploration", "differential monitoring against independent grammar",
+    "from_str of both decimal types is run on tens of millions of generated strings (grammar-derived, mutated prints, range boundaries, sign/dot soups, non-ASCII digits) and compared with an independent recogniser + exact evaluation; print→parse identity on generated values.",
+    _PURE_NOTE, "DESIGN.md §4 C27")
+reg("C29", "rv-math", "exploration", "differential monitoring against independent calendar oracle",
+    "Instant↔UtcDateTime conversions, UtcDateTime::new validity, add_* and ISO-8601 print/parse are executed on generated timestamps (whole supported range, range ends, civil boundaries, day boundaries; thorough: every second of 16 selected years) and compared with Hinnant's civil-from-days algorithms in i128; from_str on hostile text under catch_unwind.",
+    _PURE_NOTE, "DESIGN.md §4 C29")
